@@ -228,7 +228,7 @@ func TestVerifBounded_C17_Service(t *testing.T) {
 	// a slow listener must not hold the service back: notifications are queued (the queue holds the longest path)
 	{
 		cases++
-		delay := 150 * time.Millisecond
+		delay := time.Second // long enough that a loaded machine does not take this long on its own
 		svc := NewBasicService(nil, func(context.Context) error { return nil }, nil)
 		var mu sync.Mutex
 		got := 0
@@ -237,13 +237,21 @@ func TestVerifBounded_C17_Service(t *testing.T) {
 		svc.AddListener(slow)
 		t0 := time.Now()
 		_ = svc.StartAsync(context.Background())
-		ctx, cancel := context.WithTimeout(context.Background(), 2*time.Second)
+		ctx, cancel := context.WithTimeout(context.Background(), 20*time.Second)
 		_ = svc.AwaitTerminated(ctx)
 		cancel()
 		if el := time.Since(t0); el > delay {
 			report("c17:slow-listener", fmt.Sprintf("the service needed %v to terminate while a listener takes %v per callback: a transition waited for the listener", el, delay))
 		}
-		time.Sleep(5*delay + 50*time.Millisecond)
+		for w := 0; w < 300; w++ { // the four callbacks take 4 x delay; poll instead of guessing
+			mu.Lock()
+			g := got
+			mu.Unlock()
+			if g == 4 {
+				break
+			}
+			time.Sleep(100 * time.Millisecond)
+		}
 		mu.Lock()
 		if got != 4 {
 			report("c17:slow-listener-count", fmt.Sprintf("slow listener received %d of 4 transitions", got))
